@@ -3196,7 +3196,7 @@ run_family(vh::Rng& rng, bool thorough)
           cs.scanner.reset(Scanner::get_scanner_from_name("Siemens mMR"));
           N = cs.scanner->get_num_detectors_per_ring(); // 504
           R = cs.scanner->get_num_rings();              // 64
-          ecat_maxrd = rng.range(0, 2);
+          ecat_maxrd = ci % 64 == 39 ? 0 : rng.range(1, 2); // (mostly oblique segments as well)
           lm_kind = 0;
         }
       else if (variant == 0)
